@@ -437,3 +437,48 @@ func VerifH_C18_limit_options() {
 	}
 	vapi.Assert("options.slots-returned", len(s.inflightSubnet) == 0)
 }
+
+// VerifH_C18_subnet_slots: the per-subnet slot counter as a state machine.
+// Any sequence of slot requests and returns (a return only for a slot that
+// is held) on two subnets: a request is admitted exactly when fewer than the
+// limit are held for that subnet, so the number of handlers running for a
+// subnet never exceeds the limit, however admissions and completions mix.
+//
+//verif:harness prop=C18 tier=quick replay=interp require=admitted,refused,returned bounds="MaxInflightRPCsPerSubnet 1..3; every sequence of ≤6 acquire/release operations over two subnet keys"
+func VerifH_C18_subnet_slots() { verifSubnetSlots(6) }
+
+//verif:harness prop=C18 tier=thorough replay=interp require=admitted,refused,returned bounds="as VerifH_C18_subnet_slots with sequences of ≤9 operations"
+func VerifH_C18_subnet_slots_deep() { verifSubnetSlots(9) }
+
+func verifSubnetSlots(maxOps int) {
+	limit := vapi.Int("per_subnet", 1, 3)
+	w := newC18(1, limit)
+	s := w.s
+	keys := []string{"10.0.0.0/24", "10.0.1.0/24"}
+	held := []int{0, 0}
+	n := vapi.Int("ops", 1, maxOps)
+	for i := 0; i < n; i++ {
+		k := vapi.Int("key", 0, 1)
+		if held[k] > 0 && vapi.Bool("release") {
+			s.releaseInflight(keys[k])
+			held[k]--
+			vapi.Reach("returned")
+			continue
+		}
+		ok := s.acquireInflight(keys[k])
+		vapi.Assert("slots.admitted-iff-below-the-limit", ok == (held[k] < limit))
+		if ok {
+			held[k]++
+			vapi.Reach("admitted")
+		} else {
+			vapi.Reach("refused")
+		}
+		vapi.Assert("slots.never-above-the-limit", held[k] <= limit)
+	}
+	for k := range keys {
+		for ; held[k] > 0; held[k]-- {
+			s.releaseInflight(keys[k])
+		}
+	}
+	vapi.Assert("slots.all-returned", len(s.inflightSubnet) == 0)
+}
